@@ -424,3 +424,45 @@ def first_diff(a, b):
 
 def filt(lines, keep):
     return [l for l in lines if keep(l)]
+
+
+def ref_args_probe(ctx, builds):
+    """harness/ref_args.cpp in the given (compiler, std, opt) builds: listeners must receive the caller's arguments themselves
+    (writes through `T &` reach the next listener and the caller, `const T &` has the caller's address).  A build whose
+    output says otherwise is a failing configuration.  Returns the number of builds run."""
+    n = 0
+    for (compiler, std, opt) in builds:
+        name = 'ref_args_%s_%s_%s' % (compiler.replace('+', 'x'), std.replace('+', 'x'), opt.strip('-'))
+        path, err = build_cpp(ctx, name, 'ref_args.cpp', compiler=compiler, std=std, opt=opt)
+        if path is None:
+            ctx.violation('# harness/ref_args.cpp does not compile with %s -std=%s %s against the headers\n# %s\n' % (compiler, std, opt, err[-1200:].replace('\n', '\n# ')),
+                          'reference-argument probe does not compile with %s -std=%s' % (compiler, std), no_input=True)
+            continue
+        rc, out, e = sh([path], timeout=120)
+        n += 1
+        if rc != 0 or 'ref-args ok' not in out:
+            ctx.violation('# configuration: %s -std=%s %s\n# harness/ref_args.cpp (prototypes void(int &, const std::string &))\n# output:\n# %s\n%s'
+                          % (compiler, std, opt, out.strip().replace('\n', '\n# '), ('# stderr: ' + e[-600:].replace('\n', '\n# ') + '\n') if e.strip() else ''),
+                          'listeners do not receive the caller\'s arguments themselves when built with %s -std=%s: %s'
+                          % (compiler, std, '; '.join(l for l in out.splitlines() if '=' in l)[:300]))
+    return n
+
+
+def fixed_probe(ctx, src, okline, builds, what):
+    """a harness whose expected output is fixed (the lines say whether a clause of the property holds): every build must end
+    with `okline`; a build that does not is a failing configuration"""
+    n = 0
+    for (compiler, std, opt) in builds:
+        name = '%s_%s_%s_%s' % (src.replace('.cpp', ''), compiler.replace('+', 'x'), std.replace('+', 'x'), opt.strip('-'))
+        path, err = build_cpp(ctx, name, src, compiler=compiler, std=std, opt=opt)
+        if path is None:
+            ctx.violation('# harness/%s does not compile with %s -std=%s %s against the headers\n# %s\n' % (src, compiler, std, opt, err[-1200:].replace('\n', '\n# ')),
+                          '%s: probe does not compile with %s -std=%s' % (what, compiler, std), no_input=True)
+            continue
+        rc, out, e = sh([path], timeout=120)
+        n += 1
+        if rc != 0 or okline not in out:
+            ctx.violation('# configuration: %s -std=%s %s\n# harness/%s\n# output:\n# %s\n%s'
+                          % (compiler, std, opt, src, out.strip().replace('\n', '\n# '), ('# stderr: ' + e[-800:].replace('\n', '\n# ') + '\n') if e.strip() else ''),
+                          '%s (%s -std=%s): %s' % (what, compiler, std, '; '.join(out.strip().splitlines()[-3:])[:300]))
+    return n
